@@ -409,4 +409,51 @@ Proof.
       * apply Hw. left. reflexivity.
 Qed.
 
+
+(* ------------------------------------------------------------------ the fuel is enough *)
+Definition measure (s : lstate) : nat :=
+  4 * length (todo s) + 2 * length (waiting s) + (if isSome (fl s) then 1 else 0).
+
+Lemma filter_len {A} (f : A -> bool) : forall l, (length (filter f l) <= length l)%nat.
+Proof. induction l as [|a l IH]; cbn [filter length]; [lia|]. destruct (f a); cbn [length]; lia. Qed.
+
+Lemma remove_nat_length i l : (length (remove_nat i l) <= length l)%nat.
+Proof. unfold remove_nat. apply filter_len. Qed.
+
+Lemma remove_nat_shorter i : forall l, In i l -> (length (remove_nat i l) < length l)%nat.
+Proof.
+  induction l as [|x l IH]; intros H; [destruct H|]. unfold remove_nat in *. cbn [filter].
+  destruct (Nat.eqb i x) eqn:E; cbn [negb length].
+  - pose proof (filter_len (fun j => negb (Nat.eqb i j)) l). lia.
+  - destruct H as [H|H]; [subst; rewrite Nat.eqb_refl in E; discriminate|]. specialize (IH H). lia.
+Qed.
+
+Lemma step_measure (s : lstate) t e : In (t, e) (candidates s) -> (measure (step s t e) < measure s)%nat.
+Proof.
+  intros Hin. pose proof (candidate_kinds _ _ _ Hin) as K. unfold measure. destruct e as [i| |i]; cbn [step].
+  - destruct K as (Hi & _). pose proof (remove_nat_shorter _ _ Hi) as L.
+    destruct (known (lst s) nm); [cbn [todo waiting fl]; lia|].
+    destruct (fl s) as [f|]; [cbn [todo waiting fl isSome]; rewrite app_length; cbn [length]; lia|].
+    destruct (next_script s). cbn [todo waiting fl isSome]. rewrite app_length. cbn [length]. lia.
+  - destruct K as (f & Ef & _). rewrite Ef. destruct (fscript f); cbn [todo waiting fl isSome length]; lia.
+  - destruct K as (Hi & _). pose proof (remove_nat_shorter _ _ Hi) as L.
+    destruct (fl s) as [f|]; [|cbn [todo waiting fl isSome]; lia].
+    destruct (Nat.eqb (fowner f) i); [|cbn [todo waiting fl isSome]; lia].
+    destruct (remove_nat i (waiting s)) as [|first rest] eqn:Rw; [cbn [todo waiting fl isSome length] in *; lia|].
+    destruct (wins s); destruct (next_script s); cbn [todo waiting fl isSome] in *; lia.
+Qed.
+
+Lemma run_enough : forall fuel (s : lstate), (measure s < fuel)%nat -> run fuel s <> None.
+Proof.
+  induction fuel as [|k IH]; intros s M; [lia|]. cbn [Lookup.run].
+  destruct (earliest (candidates s)) as [[t e]|] eqn:E; [|discriminate].
+  apply IH. pose proof (step_measure _ _ _ (proj1 (earliest_min _ E))). lia.
+Qed.
+
+Theorem fuel_suffices callers scr wn st : run (fuel_for callers) (init callers scr wn st) <> None.
+Proof.
+  apply run_enough. unfold measure, fuel_for, init, seq_nat. cbn [todo waiting fl isSome length]. rewrite seq_length. lia.
+Qed.
+
 End FlightProofs.
+
